@@ -502,3 +502,79 @@ pub fn stored_paths(store: &Arc<Store>, dir: &RepoPath, id: &TreeId, out: &mut B
         }
     }
 }
+
+/// Content-merge outcomes (what files::try_merge + write_file give for the simplified
+/// file-id conflict) for every path whose simplified terms are all files, over all rounds
+/// of MergedTree::resolve started from `unresolved` (merge, simplify, merge again while
+/// sides get cancelled). Rows are `(key, outcome)` Coq pairs; `seen` dedups keys.
+pub fn oracle_rounds(
+    store: &Arc<Store>,
+    intern: &mut Interner,
+    unresolved: &Merge<TreeId>,
+    seen: &mut BTreeSet<Vec<u64>>,
+    out: &mut Vec<String>,
+) {
+    let root = RepoPath::root();
+    let mut current = unresolved.clone();
+    for _round in 0..20 {
+        if current.is_resolved() {
+            return;
+        }
+        let mut paths = BTreeSet::new();
+        for id in current.iter() {
+            stored_paths(store, root, id, &mut paths);
+        }
+        let trees: Vec<_> = current
+            .iter()
+            .map(|id| store.get_tree(root.to_owned(), id).block_on().unwrap())
+            .collect();
+        for p in &paths {
+            let path = repo_path(p);
+            let vals: Vec<Option<TreeValue>> = trees
+                .iter()
+                .map(|t| t.path_value(&path).block_on().unwrap())
+                .collect();
+            let simplified = Merge::from_vec(vals).simplify();
+            let Ok(ids) = simplified.try_map(|v| match v {
+                Some(TreeValue::File { id, .. }) => Ok(id.clone()),
+                _ => Err(()),
+            }) else {
+                continue;
+            };
+            let ids = ids.simplify();
+            if ids.is_resolved() {
+                continue;
+            }
+            let key: Vec<u64> = ids.iter().map(|id| intern.file(id)).collect();
+            if !seen.insert(key.clone()) {
+                continue;
+            }
+            let contents = ids.map(|id| read_file(store, &path, id));
+            let merged = jj_lib::files::try_merge(&contents, store.merge_options());
+            let res = merged.map(|content| {
+                let id = store
+                    .write_file(&path, &mut content.as_slice())
+                    .block_on()
+                    .unwrap();
+                intern.file(&id)
+            });
+            out.push(coq::pair(
+                coq::list(key.iter(), |x| coq::n(*x)),
+                coq::opt(res, coq::n),
+            ));
+        }
+        let Some(Ok(merged)) =
+            jjv::catch(|| jj_lib::tree_merge::merge_trees(store, current.clone()).block_on())
+        else {
+            return;
+        };
+        if merged.is_resolved() {
+            return;
+        }
+        let simplified = merged.simplify();
+        if simplified.iter().count() == merged.iter().count() {
+            return;
+        }
+        current = simplified;
+    }
+}
